@@ -187,6 +187,19 @@ def gen_cases(ctx, plain, root, seed):
                       [T["gensquashfs"], "-q", "-f", "-b", str(bs), "-c", "gzip", "-X", "level=3", "-j", "4", "-Q", "3",
                        "-F", pf, "-S", sf, "-D", d1, "@OUT@"],
                       "out.sqfs", "file", None, packer=True, packdir=True, relative=False, aux=(pf, sf), srcdir=d1, jobs=4))
+    # G2b: no fragment at all (every file carries dont_fragment): a compressor failure on the very last block of the
+    # run must still reach the exit status although finish() has no fragment block left to flush
+    d2 = os.path.join(root, "in2")
+    os.makedirs(d2)
+    open(os.path.join(d2, "a.bin"), "wb").write(rbytes(rnd, bs * 2 + 100))
+    open(os.path.join(d2, "b.txt"), "wb").write(b"abcdefgh" * (bs // 8) + b"tail-of-b" * 20)
+    for f in ("a.bin", "b.txt"):
+        os.utime(os.path.join(d2, f), (1000000000, 1000000000))
+    sf2 = os.path.join(root, "sort-nofrag.txt")
+    open(sf2, "w").write("0 [glob,dont_fragment] *\n")
+    cases.append(Case("gen-nofrag", "gensquashfs",
+                      [T["gensquashfs"], "-q", "-f", "-b", str(bs), "-c", "gzip", "-j", "1", "-S", sf2, "-D", d2, "@OUT@"],
+                      "out.sqfs", "file", None, packer=True, packdir=True, relative=False, aux=(sf2,), srcdir=d2))
     if ctx.tier != "quick":
         cases.append(Case("gen-dir-xz", "gensquashfs",
                           [T["gensquashfs"], "-q", "-f", "-b", str(bs), "-c", "xz", "-j", "1", "-D", d1, "@OUT@"],
@@ -1419,7 +1432,7 @@ def sweep_cases(ctx, cases, plain, shim, asan, drv, root, kinds_for, stats, quic
         if r is None:
             continue
         base, sb, counts, ncomp = r
-        if case.packer and ncomp and first and case.classes is None and (case.name in ("gen-dir-rel", "gen-packfile") or not quick):
+        if case.packer and ncomp and first and case.classes is None and (case.name in ("gen-dir-rel", "gen-packfile", "gen-nofrag") or not quick):
             d = os.path.join(root, "comp-" + case.name)
             os.makedirs(d)
             comp_sweep(ctx, case, shim, d, ncomp, stats)
